@@ -53,7 +53,8 @@ def default_responder(item):
 
 def run_engine(raw: dict, responder: Callable | None = None, *, phases=None, workers=1, max_examples=3, seed=1,
                max_failures=None, continue_on_failure=False, unique_inputs=False, checks=None, headers=None,
-               on_event=None, rec: Recorder | None = None, modes=None, override=None, auth=None, step_count=None):
+               on_event=None, rec: Recorder | None = None, modes=None, override=None, auth=None, step_count=None, rate_limit=None,
+               configure=None):
     """Returns (events, requests seen by the API)."""
     import hypothesis
 
@@ -70,6 +71,10 @@ def run_engine(raw: dict, responder: Callable | None = None, *, phases=None, wor
     try:
         schema = schemathesis.openapi.from_dict(raw)
         schema.configure(base_url=rec.url)
+        if rate_limit is not None:
+            schema.configure(rate_limit=rate_limit)
+        if configure is not None:
+            configure(schema)
         kw = {}
         if step_count is not None:
             kw["stateful_step_count"] = step_count
